@@ -150,6 +150,6 @@ def main():
     json.dump(m, open(os.path.join(HERE, "MANIFEST.json"), "w"), indent=1)
     print("MANIFEST.json:", len(checks), "checks,", len(na), "not_applicable")
 
-HOOK_COMMITS = ["6dbdc32"]
+HOOK_COMMITS = ["6dbdc32", "f71f990"]
 if __name__ == "__main__":
     main()
